@@ -2,7 +2,7 @@
 // real HydroBoundary; one global initial state on a given subgrid layout; the real sweeps driven sequentially in phase order
 // (gradient sweeps -> slope limiter -> prediction (dt/2) -> flux sweeps -> conserved update -> primitive update), per subgrid in
 // the order make_hydro_tasks creates the tasks and with the arguments execute_task passes; time step = CFL * min get_timestep.
-// input line : NX NY NZ sx sy sz px py pz bkind gamma nsteps cfl init seed mach hx hy hz dump order
+// input line : NX NY NZ sx sy sz px py pz bkind gamma nsteps cfl init seed mach hx hy hz dump order maxv
 //              (gamma, cfl, mach, hx, hy, hz as hex bit patterns; bkind 0 inflow / 1 outflow / 2 reflective; dump 0/1)
 // order      : 0 = tasks of a phase in creation order; k > 0 = the k-th pseudo-random order of the tasks inside every phase (a task = one
 //              sweep of one subgrid, as in make_hydro_tasks: what different thread counts/schedules change)
@@ -55,6 +55,7 @@ int main() {
     std::cin >> dump;
     uint64_t order;
     std::cin >> order;
+    const double maxv = rdhex(); // Hydro:maximum velocity (1e99 = limiter off)
     const int NG[3] = {NX, NY, NZ};
     const Box<> box(CoordinateVector<>(0.), CoordinateVector<>(NX * h[0], NY * h[1], NZ * h[2]));
     DensitySubGridCreator< HydroDensitySubGrid > creator(box, CoordinateVector< int_fast32_t >(NX, NY, NZ),
@@ -63,7 +64,7 @@ int main() {
     const size_t N = creator.number_of_original_subgrids();
     std::vector< HydroDensitySubGrid * > grids;
     for (size_t s = 0; s < N; ++s) grids.push_back(creator.create_subgrid(s));
-    Hydro hydro(gamma, 100., 1.e4, 1.e99, false);
+    Hydro hydro(gamma, 100., 1.e4, maxv, false);
     InflowHydroBoundary binflow;
     OutflowHydroBoundary boutflow;
     ReflectiveHydroBoundary breflect;
